@@ -439,3 +439,46 @@ def compositions(n, d):
     if d == 1:
         return [(n,)]
     return [(x,) + y for x in range(n + 1) for y in compositions(n - x, d - 1)]
+
+
+# ---------------------------------------------------------------------------------------------
+# separable states by construction
+
+VEC_KINDS = ['haar', 'real', 'basis', 'repeated', 'nearly_parallel']
+WEIGHT_KINDS = ['dirichlet', 'equal', 'dominant']
+
+
+def separable_state(r, dims, nterms, vec_kind='haar', weight_kind='dirichlet'):
+    """sum_i p_i |a_i b_i ..><a_i b_i ..| ; returns (rho, list of product vectors, weights)"""
+    dims = list(dims)
+    D = int(np.prod(dims))
+    if weight_kind == 'dirichlet':
+        p = r.dirichlet(np.ones(nterms))
+    elif weight_kind == 'equal':
+        p = np.ones(nterms) / nterms
+    else:
+        p = np.full(nterms, 1e-12)
+        p[0] = 1 - 1e-12 * (nterms - 1)
+    base = [rand_state(r, d) for d in dims]
+    vecs = []
+    for i in range(nterms):
+        loc = []
+        for k, d in enumerate(dims):
+            if vec_kind == 'haar':
+                v = rand_state(r, d)
+            elif vec_kind == 'real':
+                v = r.normal(size=d).astype(np.complex128)
+                v /= np.linalg.norm(v)
+            elif vec_kind == 'basis':
+                v = np.zeros(d, dtype=np.complex128)
+                v[int(r.integers(0, d))] = 1
+            elif vec_kind == 'repeated':
+                v = base[k]
+            else:
+                v = base[k] + 1e-6 * rand_complex(r, d)
+                v /= np.linalg.norm(v)
+            loc.append(v)
+        vecs.append(kron(*[x.reshape(-1, 1) for x in loc]).reshape(-1))
+    rho = sum(w * np.outer(v, v.conj()) for w, v in zip(p, vecs))
+    rho = (rho + rho.conj().T) / 2
+    return rho / np.trace(rho).real, vecs, p
